@@ -28,6 +28,22 @@ def fl(xs):
     return [float(unq(x)) for x in xs]
 
 
+def samp_of(f):
+    """the wavelengths (Angstrom) the filter is sampled at: the explicit `wavelengths` of the case, else the
+    table's own points"""
+    return fl(f['samp']) if 'samp' in f else fl(f['pts'])
+
+
+def svals_of(f):
+    """the curve actually sampled: the bandpass table interpolated at samp_of(f) (the table's values when the
+    samples are its own points)"""
+    return fl(f['svals']) if 'svals' in f else fl(f['vals'])
+
+
+def ngrid(f):
+    return len(f['samp']) if 'samp' in f else len(f['pts'])
+
+
 # ------------------------------------------------------------------ implementation side
 def make_bp(f):
     from synphot import SpectralElement
@@ -41,7 +57,7 @@ def wave_arg(f):
     form = f['wform']
     if form == 'none':
         return None
-    vals = np.array(fl(f.get('wvals', f['pts'])))
+    vals = np.array(fl(f['wvals'])) if 'wvals' in f else np.array(samp_of(f))
     if form == 'array':
         return vals
     if form == 'list':
@@ -137,7 +153,7 @@ def impl_call(case):
     bp = make_bp(case)
     w = wave_arg(case)
     seen = guarded(lambda: bp._validate_wavelengths(w).value)
-    out['wl_exact'] = seen.get('ok') == fl(case['pts'])       # the model is given pts as the wavelengths in Angstrom
+    out['wl_exact'] = seen.get('ok') == samp_of(case)         # the model is given these wavelengths in Angstrom
     for step in hist.get('pre', []):
         pre_call(ff, step, case, bp, w)
     raw = {}
@@ -166,7 +182,7 @@ def impl_call(case):
         # the table as stored (pts, vals) and the reconstructed bandpass sampled at the original grid
         res = table_of(b)
         raw['f'] = dict(res)
-        res['at_wl'] = b(np.array(fl(case['pts']))).value
+        res['at_wl'] = b(np.array(samp_of(case))).value
         return res
 
     def do_from():
@@ -254,7 +270,7 @@ def impl_table(case):
 
 # ------------------------------------------------------------------ model side
 def model_to(f, N, n_terms):
-    return {'op': 'fft_to', 'pts': f['pts'], 'vals': f['vals'], 'wl': f['pts'], 'N': N, 'n_terms': n_terms}
+    return {'op': 'fft_to', 'pts': f['pts'], 'vals': f['vals'], 'wl': f.get('samp', f['pts']), 'N': N, 'n_terms': n_terms}
 
 
 def model_from(to, N):
@@ -330,31 +346,41 @@ def hist_text(case):
     return ' [history: %s]' % json.dumps(h, sort_keys=True)
 
 
+def reported(rep, op, f, t, case, out):
+    """the reported (n, lambda_0, median step, peak) of one filter against the wavelengths it was sampled at and
+    the curve sampled there (not the bandpass's own table when explicit wavelengths were given)"""
+    pts, vals = samp_of(f), svals_of(f)
+    n, peak = len(pts), max(vals)
+    how = ' [explicit wavelengths: %s of a table of %d points]' % (f['skind'], len(f['pts'])) if 'samp' in f else ''
+    if t['n'] != n:
+        fail(rep, op + ':reported:n_lambda', 'n_lambda %r for %d sampled wavelengths%s' % (t['n'], n, how), case, out)
+    if t['lam0'] != min(pts):
+        fail(rep, op + ':reported:lambda_0', 'lambda_0 %r, smallest sampled wavelength %r%s' % (t['lam0'], min(pts), how), case, out)
+    ms = median_step(pts)
+    if not abs(t['delta'] - ms) <= 1e-12 * abs(ms):
+        fail(rep, op + ':reported:delta_lambda', 'delta_lambda %r, median step %r%s' % (t['delta'], ms, how), case, out)
+    if f['grid'] == 'lattice' and t['delta'] != unq(f['step']):
+        fail(rep, op + ':reported:delta_lambda', 'delta_lambda %r on a regular grid of step %s%s' % (t['delta'], f['step'], how), case, out)
+    # exact when the samples are knots of the table; interpolated samples: rounding of the interpolation only
+    if not abs(t['tr_max'] - peak) <= (1e-12 * peak if f.get('skind') == 'between' else 0.0):
+        fail(rep, op + ':reported:tr_max', 'tr_max %r, peak of the sampled curve %r (peak of the bandpass table %r)%s'
+             % (t['tr_max'], peak, max(fl(f['vals'])), how), case, out)
+
+
 def oracle(rep, case, out):
     for name in out.get('repeat', []):
         fail(rep, '%s:repeat:differs' % name, 'two identical calls of %s within one history gave different results%s'
              % (name, hist_text(case)), case, out)
     if case['op'] == 'fft_table':
         return oracle_table(rep, case, out)
-    pts, vals = fl(case['pts']), fl(case['vals'])
+    pts, vals = samp_of(case), svals_of(case)          # the sampled wavelengths and the curve sampled there
     n, peak = len(pts), max(vals)
     to = out['to']
     if 'err' in to:
         fail(rep, 'filter_to_fft:valid-input:%s' % to['err'], 'filter_to_fft failed on a valid bandpass: %s' % to, case, out)
         return
     t = to['ok']
-    # -- reported parameters
-    if t['n'] != n:
-        fail(rep, 'filter_to_fft:reported:n_lambda', 'n_lambda %r for %d sampled wavelengths' % (t['n'], n), case, out)
-    if t['lam0'] != min(pts):
-        fail(rep, 'filter_to_fft:reported:lambda_0', 'lambda_0 %r, smallest wavelength %r' % (t['lam0'], min(pts)), case, out)
-    ms = median_step(pts)
-    if not abs(t['delta'] - ms) <= 1e-12 * abs(ms):
-        fail(rep, 'filter_to_fft:reported:delta_lambda', 'delta_lambda %r, median step %r' % (t['delta'], ms), case, out)
-    if case['grid'] == 'lattice' and t['delta'] != unq(case['step']):
-        fail(rep, 'filter_to_fft:reported:delta_lambda', 'delta_lambda %r on a regular grid of step %s' % (t['delta'], case['step']), case, out)
-    if t['tr_max'] != peak:
-        fail(rep, 'filter_to_fft:reported:tr_max', 'tr_max %r, peak of the sampled curve %r' % (t['tr_max'], peak), case, out)
+    reported(rep, 'filter_to_fft', case, t, case, out)
     N = out['N']
     if N not in (n + 1, n + 2):
         fail(rep, '_simplified_wavelength:count', 'simplified grid has %d points for n_lambda=%d' % (N, n), case, out)
@@ -421,10 +447,11 @@ def oracle_table(rep, case, out):
     want_cols = ['filter', 'n_lambda', 'lambda_0', 'delta_lambda', 'tr_max'] + ['fft_%d' % i for i in range(case['n_terms'])]
     if tt['colnames'] != want_cols or tt['units'] != ['Angstrom', 'Angstrom']:
         fail(rep, 'filters_to_fft_table:rows:columns', 'columns %r units %r' % (tt['colnames'], tt['units']), case, out)
-    for r, s in zip(tt['rows'], singles):
+    for r, s, f in zip(tt['rows'], singles, case['filters']):
         if 'ok' not in s or r['row'] != s['ok']:
             fail(rep, 'filters_to_fft_table:rows:values', 'row of %s is %r, filter_to_fft gives %r' % (r['name'], r['row'], s), case, out)
             return
+        reported(rep, 'filters_to_fft_table', f, r['row'], case, out)
 
 
 # ------------------------------------------------------------------ generators
@@ -463,7 +490,7 @@ def gen_curve(rng, n, kind):
 UNIT_FORMS = {'nm': 'nm', 'micron': 'micron'}
 
 
-def gen_filter(rng, n, grid=None, curve=None, wform=None):
+def gen_filter(rng, n, grid=None, curve=None, wform=None, samp=None):
     import astropy.units as u
     grid = grid or rng.choice(['lattice', 'lattice', 'float', 'float', 'irregular', 'irregular', 'irregular'])
     curve = curve or rng.choices(['zero_min', 'positive', 'constant'], [70, 25, 5])[0]
@@ -497,6 +524,57 @@ def gen_filter(rng, n, grid=None, curve=None, wform=None):
               'regular': grid in ('lattice', 'float'), 'zero_min': curve == 'zero_min'})
     if wform in UNIT_FORMS:
         f['wvals'] = qs(wvals)          # values in the unit; otherwise the wavelengths are pts themselves
+    if samp is None:
+        samp = n <= 400 and rng.random() < 0.4
+    return add_sampling(rng, f) if samp else f
+
+
+def add_sampling(rng, f, kind=None):
+    """turn a filter whose table IS the sampled grid into one with explicit `wavelengths`: the grid G generated so
+    far stays the sampled grid, the bandpass gets a richer table of its own --
+    coarse:  k-1 extra knots inside every interval of G, 1-3 of them carrying a narrow peak above everything G sees;
+    partial: the table continues beyond G (one or both sides) with a higher bump there;
+    between: the table's knots are the midpoints of G (and one beyond each end), so every sample is interpolated.
+    The curve the code samples is the table interpolated at G (`svals`); flags are those of the sampled curve."""
+    G, V = fl(f['pts']), fl(f['vals'])
+    n, peak = len(G), max(V)
+    kind = kind or rng.choices(['coarse', 'partial', 'between'], [45, 30, 25])[0]
+    if kind == 'coarse':
+        k = rng.choice([2, 2, 3, 4])
+        P, W = [], []
+        for i in range(n - 1):
+            for j in range(k):
+                fr = j / k
+                P.append(G[i] + (G[i + 1] - G[i]) * fr if j else G[i])
+                W.append(V[i] + (V[i + 1] - V[i]) * fr if j else V[i])
+        P.append(G[-1])
+        W.append(V[-1])
+        inner = [i for i in range(len(P)) if i % k]
+        for i in rng.sample(inner, min(len(inner), rng.randint(1, 3))):
+            W[i] = peak * rng.uniform(1.2, 2.5) + 0.05
+    elif kind == 'partial':
+        h0, h1 = G[1] - G[0], G[-1] - G[-2]
+        lo = min(rng.choice([0, 0, rng.randint(2, max(2, n // 2))]), int(0.5 * G[0] / h0))   # wavelengths stay positive
+        hi = rng.randint(2, max(2, n // 2)) if lo == 0 or rng.random() < 0.5 else 0
+        top = peak * rng.uniform(1.3, 2.0) + 0.05
+        P = [G[0] - h0 * j for j in range(lo, 0, -1)] + G + [G[-1] + h1 * j for j in range(1, hi + 1)]
+        W = ([V[0] + (top - V[0]) * math.sin(math.pi * (lo - j + 1) / (lo + 1)) for j in range(lo, 0, -1)] + V +
+             [V[-1] + (top - V[-1]) * math.sin(math.pi * j / (hi + 1)) for j in range(1, hi + 1)])
+        if lo:
+            W[0] = 0.0
+        if hi:
+            W[-1] = 0.0
+    else:
+        P = [G[0] - (G[1] - G[0]) / 2] + [(a + b) / 2 for a, b in zip(G, G[1:])] + [G[-1] + (G[-1] - G[-2]) / 2]
+        W = [V[0]] + [max(a, b) * rng.choice([1.0, 1.0, 1.0, 1.6]) for a, b in zip(V, V[1:])] + [V[-1]]
+    sv = [float(x) for x in np.interp(np.array(G), np.array(P), np.array(W))] if kind == 'between' else V
+    if f['curve'] != 'constant' and max(sv) == min(sv):
+        return f                            # nothing left to reconstruct: keep the table as the sampled grid
+    f = dict(f)
+    f.update({'samp': f['pts'], 'svals': qs(sv), 'pts': qs(P), 'vals': qs(W), 'skind': kind,
+              'zero_min': min(sv) == 0.0, 'curve': 'constant' if max(sv) == min(sv) else f['curve']})
+    if f['wform'] == 'none':                # explicit wavelengths: with or without units
+        f['wform'] = rng.choice(['array', 'list', 'AA'])
     return f
 
 
@@ -567,7 +645,7 @@ def gen_table_case(rng, thorough):
         f['name'] = rng.choice(['JOHNSON/V', 'Flat', 'sdss_r', 'F555W', 'x']) + '#%d' % i
         fs.append(f)
     if rng.random() < 0.1:                  # ... except in the ragged cases (Table raises ValueError)
-        nt = max(len(f['pts']) for f in fs) + rng.randint(3, 6)
+        nt = max(ngrid(f) for f in fs) + rng.randint(3, 6)
     pre = [rng.choice(['reversed', 'decoy', 'other_terms', 'same', 'same', 'to_decoy', 'ana_decoy', 'from_decoy'])
            for _ in range(rng.choice([0, 1, 1, 2, 3]))]
     return {'op': 'fft_table', 'filters': fs, 'n_terms': nt, 'history': {'pre': pre}}
@@ -616,7 +694,7 @@ def work(item):
     oracle(col, case, out)
     out['_oracle'] = col.fails
     if case['op'] == 'fft_case':
-        vals = fl(case['vals'])
+        vals = svals_of(case)
         out['_peak'], out['_sum'] = max(vals), sum(vals)
     return case, out
 
@@ -631,13 +709,13 @@ def process(rep, items, with_model=True):
         if not with_model:
             break
         if c['op'] == 'fft_table':
-            if all(N is not None for N in o['Ns']) and all(len(f['pts']) <= MODEL_NMAX for f in c['filters']):
+            if all(N is not None for N in o['Ns']) and all(ngrid(f) <= MODEL_NMAX for f in c['filters']):
                 mlines.append({'op': 'fft_table', 'n_terms': c['n_terms'],
-                               'filters': [{'name': f['name'], 'pts': f['pts'], 'vals': f['vals'], 'wl': f['pts'], 'N': N}
+                               'filters': [{'name': f['name'], 'pts': f['pts'], 'vals': f['vals'], 'wl': f.get('samp', f['pts']), 'N': N}
                                            for f, N in zip(c['filters'], o['Ns'])]})
                 slots.append((i, 'table'))
             continue
-        if len(c['pts']) > MODEL_NMAX or not c.get('model', True) or 'ok' not in o['to'] or not o.get('wl_exact'):
+        if ngrid(c) > MODEL_NMAX or not c.get('model', True) or 'ok' not in o['to'] or not o.get('wl_exact'):
             continue
         mlines.append(model_to(c, o['N'], c['n_terms']))
         slots.append((i, 'to'))
@@ -659,10 +737,10 @@ def process(rep, items, with_model=True):
             for sig, msg in o['_oracle']:
                 fail(rep, sig, msg, c, o)
             continue
-        n = len(c['pts'])
+        n = ngrid(c)
         tags = ['op:roundtrip', 'grid:' + c['grid'], 'curve:' + c['curve'], 'terms:' + c['tclass'], 'wform:' + c['wform'],
                 'size:' + ('8-64' if n <= 64 else '65-400' if n <= 400 else '401-2000'),
-                'model:' + ('compared' if m else 'oracle-only')]
+                'model:' + ('compared' if m else 'oracle-only'), 'wavelengths:' + c.get('skind', 'table-points')]
         h = c.get('history') or {}
         tags.append('history:pre-calls=%d,pre-evals=%d' % (len(h.get('pre', [])), len(h.get('ana', []))))
         if 'ok' in o['to']:
@@ -704,7 +782,7 @@ def cmp_table(o, m, c):
     if [r['name'] for r in rows] != [r['name'] for r in mrows]:
         return 'table rows: impl %r vs model %r' % ([r['name'] for r in rows], [r['name'] for r in mrows])
     for r, mr, f in zip(rows, mrows, c['filters']):
-        vals = fl(f['vals'])
+        vals = svals_of(f)
         d = cmp_params({'ok': r['row']}, {'ok': mr['row']}, max(sum(vals), max(vals)))
         if d:
             return 'row %s: %s' % (r['name'], d)
@@ -716,7 +794,7 @@ RULE = ('bandpass tables (Empirical1D) of n points, n uniform in 8..64 (quick; t
         '(2^-6 A; sums/differences exact, arange count n+1), regular in binary64 (random lambda_0 and step; arange count '
         'n+1 or n+2), mildly irregular (jitter 2%%..30%% of the step, half of them on the lattice); curves: 1-3 '
         'gaussian/box/triangle bumps + noise, shifted to zero minimum (70%%), positive floor (25%%), constant (5%%); '
-        'wavelengths handed over as None (waveset) / ndarray / list / Quantity in Angstrom, nm, micron; n_terms: 1 (7%%), '
+        'wavelengths handed over as None (waveset) / ndarray / list / Quantity in Angstrom, nm, micron; 40%% of the filters (grids <= 400 points) are sampled on explicit wavelengths that are NOT the bandpass table: the table has k-1 extra knots in every interval with 1-3 narrow peaks the samples skip (coarse), continues beyond the sampled range with a higher bump (partial), or has its knots at the midpoints (between: every sample interpolated); reported parameters, span and exact inverse are judged on the sampled curve; n_terms: 1 (7%%), '
         '>= grid length i.e. every term (28%%), uniform 2..n+1 (45%%), 2..12 (20%%), plus every term count 1..n+2 of one '
         'small grid per grid kind; filter_from_fft / analytical_model_from_fft called with Quantities or plain floats; '
         'every case is a history: 0-3 earlier calls (filter_to_fft / filter_from_fft / analytic model / table on a decoy '
@@ -756,7 +834,7 @@ def search(rep, mismatches):
     cases = []
     for op, msg, c, o, m in mismatches[:40]:
         if c.get('op') == 'fft_case':
-            n = len(c['pts'])
+            n = ngrid(c)
             for _ in range(20):
                 cases.append(gen_case(rng, False, n=max(8, n + rng.randint(-2, 2)), grid=c['grid'], curve=c['curve']))
         else:
